@@ -449,16 +449,17 @@ func stressOp(toks []string) string {
 // the Lean protocol model must accept every one of them.
 
 type tracer struct {
-	mu      sync.Mutex
-	lines   []string
-	txIDs   map[any]int
-	recIDs  map[any]int
-	recName map[int]string
-	nextTx  int
-	nextRec int
-	waiters map[any]int     // channel of a blocking pop -> waiter number
-	mini    map[any]*miniTx // who (a *int64) -> state of the mini transaction
-	miniRec map[int]any     // record -> mini transaction currently holding it in w mode
+	mu       sync.Mutex
+	lines    []string
+	txIDs    map[any]int
+	recIDs   map[any]int
+	recName  map[int]string
+	nextTx   int
+	nextRec  int
+	waiters  map[any]int     // channel of a blocking pop -> waiter number
+	returned map[int]bool    // waiters whose call has produced its result
+	mini     map[any]*miniTx // who (a *int64) -> state of the mini transaction
+	miniRec  map[int]any     // record -> mini transaction currently holding it in w mode
 }
 
 type miniTx struct {
@@ -467,12 +468,14 @@ type miniTx struct {
 }
 
 func newTracer() *tracer {
-	return &tracer{txIDs: map[any]int{}, recIDs: map[any]int{}, recName: map[int]string{}, mini: map[any]*miniTx{}, miniRec: map[int]any{}, waiters: map[any]int{}}
+	return &tracer{txIDs: map[any]int{}, recIDs: map[any]int{}, recName: map[int]string{}, mini: map[any]*miniTx{}, miniRec: map[int]any{}, waiters: map[any]int{}, returned: map[int]bool{}}
 }
 
 func kx(key string) string { return fmt.Sprintf("k%x", key) }
 
-func (tr *tracer) emit(format string, a ...any) { tr.lines = append(tr.lines, "pev "+fmt.Sprintf(format, a...)) }
+func (tr *tracer) emit(format string, a ...any) {
+	tr.lines = append(tr.lines, "pev "+fmt.Sprintf(format, a...))
+}
 
 func (tr *tracer) rec(m any, fresh bool) int {
 	if id, ok := tr.recIDs[m]; ok && !fresh {
@@ -510,13 +513,27 @@ func (tr *tracer) hook(ev string, who any, key string, m any, flag bool) {
 		}
 		line := ""
 		switch ev {
-		case "bp-reg", "bp-notify", "bp-unreg":
+		case "bp-unreg":
+			// the deferred clean-up: when the call has not returned an element or null, a pop
+			// attempt panicked (a key of another type) and the call is unwinding
+			if !tr.returned[w] {
+				tr.returned[w] = true
+				tr.lines = append(tr.lines, fmt.Sprintf("bev abort %d", w))
+			}
+			line = fmt.Sprintf("bev unreg %d %s", w, kx(key))
+		case "bp-reg", "bp-notify":
 			line = fmt.Sprintf("bev %s %d %s", ev[3:], w, kx(key))
 		case "bp-try":
+			if flag {
+				tr.returned[w] = true
+			}
 			line = fmt.Sprintf("bev try %d %s %s", w, kx(key), b01(flag))
 		case "bp-block":
 			line = fmt.Sprintf("bev block %d %s", w, b01(flag))
 		case "bp-wake", "bp-timeout":
+			if ev == "bp-timeout" {
+				tr.returned[w] = true
+			}
 			line = fmt.Sprintf("bev %s %d", ev[3:], w)
 		}
 		tr.lines = append(tr.lines, line)
@@ -1222,7 +1239,7 @@ func attackPayloads(r *rand.Rand) [][]byte {
 	names := []string{"GET", "SET", "SETEX", "GETRANGE", "SETRANGE", "INCRBY", "INCRBYFLOAT", "SETBIT", "BITCOUNT", "LPUSH", "LPOP", "LRANGE", "LINDEX", "LSET", "LTRIM", "LREM", "LINSERT",
 		"HSET", "HINCRBY", "HINCRBYFLOAT", "HSCAN", "SADD", "SPOP", "SRANDMEMBER", "SSCAN", "ZADD", "ZRANGE", "ZRANGEBYSCORE", "ZINCRBY", "ZREMRANGEBYRANK", "ZREMRANGEBYSCORE", "ZUNIONSTORE",
 		"ZINTERSTORE", "ZSCAN", "SCAN", "KEYS", "EXPIRE", "EXPIREAT", "PEXPIRE", "TTL", "RENAME", "BLPOP", "BRPOP", "GEOADD", "GEORADIUS", "GEORADIUSBYMEMBER", "GEODIST", "GEOHASH", "GEOPOS",
-		"MULTI", "EXEC", "DISCARD", "WATCH", "UNWATCH", "CLIENT", "CONFIG", "INFO", "ECHO", "PING", "QUIT", "FLUSHDB", "DBSIZE", "TYPE", "DEL", "EXISTS", "MSET", "MGET", "APPEND", "STRLEN",
+		"MULTI", "EXEC", "DISCARD", "WATCH", "UNWATCH", "CLIENT", "CONFIG", "INFO", "ECHO", "PING", "QUIT", "DBSIZE", "TYPE", "DEL", "EXISTS", "MSET", "MGET", "APPEND", "STRLEN",
 		"SAVE", "SELECT", "AUTH", "COMMAND", "NOSUCH", ""}
 	operands := []string{"", "k", "ak", "0", "-1", "1", "9223372036854775807", "-9223372036854775808", "99999999999999999999", "1e400", "nan", "inf", "-inf", "0.5", "abc", "(", "[", "+", "-",
 		"NX", "XX", "GT", "LT", "CH", "INCR", "COUNT", "MATCH", "LIMIT", "WITHSCORES", "WEIGHTS", "AGGREGATE", "BEFORE", "AFTER", "EX", "PX", "KEEPTTL", "GET", "\x00", "\r\n", strings.Repeat("x", 5000), "*", "[a", "\\"}
